@@ -13,16 +13,30 @@ Line-protocol driver for the quorum model (C06).
   relupd <nameHex> <0|1> · relall <permit|block|abstain|defer>      `update_reliability` / `update_all_reliability`
   attr strategy <s> · attr threshold <c|none> · attr minvoters <n>  direct assignment of the public attributes
   ldel <idx> · linsert <idx> <nameHex> <w> · pset <idx> <w|_> <rel|_>   direct edits of `colony` / profile fields
+  cb <reached|failed> <none|ok|raise>                         install / remove `on_quorum_reached` / `on_quorum_failed` (a raising one: `raise`)
+  attr tracking <0|1>                                         `enable_reliability_tracking`
+  obj <k>                                                     switch to quorum object k (several objects alive; each has its own state)
   (weight / rel of a vote token may be `_`: keep the profile's value; the colony persists between votes and is
    grown / shrunk to the ballot's length through add_agent / remove_agent)
-  → reached decision permit block abstain total thresholdTag [vote kinds:weight:conf] ## branch tags
+  → reached decision permit block abstain total thresholdTag [vote kinds:weight:conf] strategy cb=<reached|failed|none> ## branch tags
+    (a raising callback: `raise:CallbackError <reached|failed> <the result it was handed>`)
 -/
 open Operon Operon.Proto Operon.Quorum
 
+/-- one quorum object -/
 structure DSt where
   cfg : Option Cfg := some ⟨.majority, none, 1⟩
   colony : Option (List Member) := none       -- none: the object has not been constructed yet
   last : Option (List (List Nat × VoteType)) := none
+  cbReached : Nat := 0                        -- `on_quorum_reached`: 0 not installed, 1 installed, 2 installed and raising
+  cbFailed : Nat := 0                         -- `on_quorum_failed`
+  tracking : Bool := true                     -- `enable_reliability_tracking`
+
+/-- all quorum objects alive: the current one and the parked ones -/
+structure World where
+  cur : DSt := {}
+  curId : Nat := 0
+  parked : List (Nat × DSt) := []
 
 def strategyOf? : String → Option Strategy
   | "majority" => some .majority
@@ -117,20 +131,29 @@ def voteTypeOf? : String → Option VoteType
   | "permit" => some .permit | "block" => some .block | "abstain" => some .abstain | "defer" => some .defer
   | _ => none
 
-def showResult (cfg : Cfg) (voters : List Voter) (names : List (List Nat)) (r : Result) (tagPrefix : String) : String :=
+/-- which callback `run_vote` invokes with the result (`on_quorum_reached` exactly when reached), as the driver's
+    callback slots see it: (its name, installed?, raising?) -/
+def firedCallback (st : DSt) (r : Result) : String × Nat :=
+  match callbackFor r with
+  | .onReached => ("reached", st.cbReached)
+  | .onFailed => ("failed", st.cbFailed)
+
+def showResult (st : DSt) (cfg : Cfg) (voters : List Voter) (names : List (List Nat)) (r : Result) (tagPrefix : String) : String :=
   let gated := decide (activeCount (collect voters) < cfg.minVoters)
   let tag := if gated then s!"{tagPrefix}gate"
     else s!"{tagPrefix}{showStrategy cfg.strategy}:{if r.reached then "permit" else "block"}"
-  joinSp [showBool r.reached, showVT r.decision, toString r.permit, toString r.block,
+  let obs := joinSp [showBool r.reached, showVT r.decision, toString r.permit, toString r.block,
     toString r.abstain, toString r.total, thresholdTag cfg voters.length r gated,
     showList (List.zipWith (fun v n => s!"{showVT v.kind}:{showRat v.weight}:{showRat v.conf}:{encodeCps n}") r.votes names),
     showStrategy cfg.strategy]
-    ++ s!" ## {tag}"
+  let (kind, mode) := firedCallback st r
+  (if mode = 2 then s!"raise:CallbackError {kind} {obs}"
+   else if mode = 1 then s!"{obs} cb={kind}" else s!"{obs} cb=none") ++ s!" ## {tag}"
 
 /-- a vote of a fresh, un-stubbed colony (does not touch the driver's own colony) -/
 def realVoteLine (st : DSt) (cfg : Cfg) (voters : List Voter) : DSt × String :=
   if runVoteRaises cfg voters then (st, s!"raise:ZeroDivisionError ## real:{showStrategy cfg.strategy}:raise")
-  else (st, showResult cfg voters ((List.range voters.length).map builtinName) (runVote cfg voters) "real:")
+  else (st, showResult {} cfg voters ((List.range voters.length).map builtinName) (runVote cfg voters) "real:")
 
 /-- a vote of the driver's colony, through `stepOp` -/
 def voteLine (st : DSt) (cfg : Cfg) (toks : List Tok) : DSt × String :=
@@ -140,13 +163,13 @@ def voteLine (st : DSt) (cfg : Cfg) (toks : List Tok) : DSt × String :=
   let beh : Nat → Behaviour := fun i => (toks.map (·.beh)).getD i ⟨.permit, .absent⟩
   let voters := electorate c1 beh
   let (q, res) := stepOp ⟨cfg, c1, st.last⟩ (.vote beh)
-  let st' : DSt := { cfg := some cfg, colony := some q.colony, last := q.last }
+  let st' : DSt := { st with cfg := some cfg, colony := some q.colony, last := q.last }
   match res with
   | none => (st', s!"raise:ZeroDivisionError ## {showStrategy cfg.strategy}:raise")
   | some r =>
     let weightSensitive := cfg.strategy = .weighted || cfg.strategy = .confidence || cfg.strategy = .bayesian
     if weightSensitive && c1.any (fun m => !isPow2 m.rel.den) then (st', "skip:nondyadic ## skip")
-    else (st', showResult cfg voters (c1.map (·.name)) r "")
+    else (st', showResult st cfg voters (c1.map (·.name)) r "")
 
 /-- an operation on the (constructed-on-demand) colony through `stepOp`; prints the colony afterwards -/
 def colonyOp (st : DSt) (op : Op) (flag : Option Bool) : DSt × String :=
@@ -154,7 +177,7 @@ def colonyOp (st : DSt) (op : Op) (flag : Option Bool) : DSt × String :=
   | none => (st, "bad-op")
   | some cfg =>
     let (q, _) := stepOp ⟨cfg, st.colony.getD [], st.last⟩ op
-    ({ cfg := some q.cfg, colony := some q.colony, last := q.last },
+    ({ st with cfg := some q.cfg, colony := some q.colony, last := q.last },
       (match flag with | some b => showBool b ++ " " | none => "") ++ showColony q.colony)
 
 def step (st : DSt) (toks : List String) : DSt × String :=
@@ -195,11 +218,22 @@ def step (st : DSt) (toks : List String) : DSt × String :=
   | ["pset", i, w, r] =>
     if natD i < (st.colony.getD []).length then colonyOp st (.assign (natD i) (optRat w) (optRat r)) none
     else (st, "bad-op")
-  | ["relupd", name, ok] => colonyOp st (.updateReliability (decodeCps name) (boolOf ok)) none
+  | ["relupd", name, ok] =>
+    if st.tracking then colonyOp st (.updateReliability (decodeCps name) (boolOf ok)) none
+    else colonyOp st (.setStrategy ((st.cfg.getD ⟨.majority, none, 1⟩).strategy) ((st.cfg.getD ⟨.majority, none, 1⟩).custom)) none
   | ["relall", d] =>
     match voteTypeOf? d with
-    | some vt => colonyOp st (.updateAll vt) none
+    | some vt =>
+      if st.tracking then colonyOp st (.updateAll vt) none
+      else colonyOp st (.setStrategy ((st.cfg.getD ⟨.majority, none, 1⟩).strategy) ((st.cfg.getD ⟨.majority, none, 1⟩).custom)) none
     | none => (st, "bad-op")
+  | ["cb", which, mode] =>
+    let m? : Option Nat := match mode with | "none" => some 0 | "ok" => some 1 | "raise" => some 2 | _ => none
+    match which, m? with
+    | "reached", some m => ({ st with cbReached := m }, "ok")
+    | "failed", some m => ({ st with cbFailed := m }, "ok")
+    | _, _ => (st, "bad-op")
+  | ["attr", "tracking", b] => ({ st with tracking := boolOf b }, "ok")
   | ["realvote", pc, budget, n] =>
     let p? : Option PromptClass :=
       match pc with
@@ -216,4 +250,20 @@ def step (st : DSt) (toks : List String) : DSt × String :=
     | _, _ => (st, "bad-op")
   | _ => (st, "bad-op")
 
-def main : IO Unit := runDriver ({} : DSt) step
+/-- `obj k` parks the current object and makes object k current (a fresh one when k was never used) -/
+def stepWorld (w : World) (toks : List String) : World × String :=
+  match toks with
+  | ["obj", k] =>
+    let id := natD k
+    if id = w.curId then (w, "ok")
+    else
+      let parked := (w.curId, w.cur) :: w.parked.filter (fun e => e.1 ≠ w.curId)
+      let nxt : DSt := match parked.find? (fun e => e.1 = id) with
+        | some e => e.2
+        | none => {}
+      ({ cur := nxt, curId := id, parked := parked.filter (fun e => e.1 ≠ id) }, "ok")
+  | _ =>
+    let (st, out) := step w.cur toks
+    ({ w with cur := st }, out)
+
+def main : IO Unit := runDriver ({} : World) stepWorld
